@@ -28,6 +28,21 @@ let judge_token ~covered ~meth tok : string option =
   else if L.for_all (fun p -> p = "s404") parts then None
   else Some (Printf.sprintf "answers for method %s which it does not select (saw %s)" (show meth) tok)
 let token_bound tok = L.exists (fun p -> String.length p > 0 && p.[0] = 'x') (String.split_on_char '+' tok)
+(* shape 4 = a rule on the verb and path of the method's own annotation (POST /c19/own) without a body
+   mapping; its request carries the JSON body {"text":"posted4"}: when the own annotation (body "*")
+   answers, that text is in the message, when the config rule answers it is not *)
+let contains_sub s sub =
+  let n = String.length s and m = String.length sub in
+  let rec go i = i + m <= n && (String.sub s i m = sub || go (i + 1)) in go 0
+let clash_bound tok = token_bound tok && not (contains_sub tok "706f7374656434")
+let judge_clash ~covered ~meth tok : string option =
+  if not (starts_with (hex_of_bytes meth ^ ":") tok) then
+    Some (Printf.sprintf "(same verb and path as the own annotation of %s) is not answered by that method (saw %s)" (show meth) tok)
+  else if covered && not (clash_bound tok) then
+    Some (Printf.sprintf "selects %s and shares verb and path with its own annotation, but the annotation's body mapping answers instead of the rule's (saw %s)" (show meth) tok)
+  else if (not covered) && clash_bound tok then
+    Some (Printf.sprintf "does not select %s but its body mapping answers on the path of the method's own annotation (saw %s)" (show meth) tok)
+  else None
 
 let run inp obs : string option * string option =
   match inp, obs with
@@ -59,6 +74,7 @@ let run inp obs : string option * string option =
     let rules = L.map (fun f -> match String.split_on_char '@' f with
         | [h; sh] -> (bytes_of_hex h, int_of_string sh) | _ -> failwith "rule") (split_on ',' rules) in
     let sels = L.map fst rules in
+    let shapes = L.map snd rules in
     let methods = hexs_of methods in
     if L.length obs <> L.length methods then (Some "unparsable C19M observation", None) else
     let res = L.map2 (fun meth o ->
@@ -76,7 +92,7 @@ let run inp obs : string option * string option =
                 Some (Printf.sprintf "the own annotation of %s stopped working beside the service config (saw %s)" (show meth) t)
               | _ -> None in
             let spec = if spec <> None then spec else L.find_map (fun ((i, s), tok) ->
-                match judge_token ~covered:(SelectorSpec.covers_b s meth) ~meth tok with
+                match (if own && L.nth shapes i = 4 then judge_clash else judge_token) ~covered:(SelectorSpec.covers_b s meth) ~meth tok with
                 | Some e -> Some (Printf.sprintf "config rule %d with selector %s %s" i (show s) e)
                 | None -> None) (L.combine (L.mapi (fun i s -> (i, s)) sels) toks) in
             match spec with
@@ -84,7 +100,7 @@ let run inp obs : string option * string option =
             | None ->
               if cfg <> ann then (Some (Printf.sprintf "for %s the config rules behave as [%s], the same rules as annotation as [%s]" (show meth) cfg ann), None)
               else
-                let seen = L.filter_map (fun (i, t) -> if token_bound t then Some i else None) (L.mapi (fun i t -> (i, t)) toks) in
+                let seen = L.filter_map (fun (i, t) -> if (if own && L.nth shapes i = 4 then clash_bound t else token_bound t) then Some i else None) (L.mapi (fun i t -> (i, t)) toks) in
                 let want = model_bound sels meth in
                 if seen = want then (None, None)
                 else (None, Some (Printf.sprintf "model binds rules [%s] to %s, implementation [%s]"
